@@ -12,6 +12,12 @@ CHECKS = {
          "Trusts the reference varint codec (self-checked at setup); int64/float64 are covered on boundary sets only.", "DESIGN.md §4 C17"),
 }
 CHECKS.update({
+ "C18": (True, "exploration", "bounded-exhaustive grammar-product enumeration of timestamp strings through the public decode path, standard library as oracle",
+         "An exhaustive product over the RFC 3339 grammar (calendar/time grid x every fraction digit string up to length 10/12 over a 2/3-digit alphabet x separators x 11 zones), all date-only strings of the grid, a format->parse identity sweep and every truncation / single-character mutation of six valid timestamps, all pushed through the real codec (string field -> time.Time / null.Time). Whenever the string matches the grammar and time.Parse accepts it, instant and offset must agree; no string may panic.",
+         "Oracle is time.Parse(RFC3339) restricted to the RFC 3339 grammar; digit alphabets are bounded.", "DESIGN.md §4 C18"),
+ "C19": (True, "exploration", "exhaustive enumeration of stored integers (all int32 days in thorough) and structured time sets through the real logical-type codecs, independent arithmetic as oracle",
+         "Read direction: every int32 day count (thorough; |d|<=2^20 + boundaries quick) and 2^k±δ longs inside the int64-nanosecond range for timestamp-millis/-micros/plain long; write direction: base times x 31 offsets and every day boundary around the epoch. Each is compared with time.Unix/UnixMilli/UnixMicro and floor division.",
+         "Long domains on boundary sets only; floor-to-resolution interpretation of the write clause.", "DESIGN.md §4 C19"),
  "C07": (True, "fault_enumeration", "exhaustive single-bit damage enumeration over a reference-written file family, plus callback-failure points and metadata variants",
          "Every bit of every sync marker, snappy CRC, compressed payload byte and of the magic is flipped, one at a time, in every file of a family (3 schemas x 3 codecs x every block composition of <=3 records) written by an independent reference writer; the callback is failed at every record index; metadata variants cover missing schema / absent and unknown codec. The oracle is the reference parser and the reference decompressors. The corruption space of a small file is finite, so it is enumerated completely rather than sampled.",
          "Payload flips the reference decompressor accepts are counted but not judged (the statement only covers rejected blocks).", "DESIGN.md §4 C07"),
